@@ -216,8 +216,12 @@ def lexString : Nat → FmtLit → Bytes → Except CErr (Tree × Bytes)
       let txt := s.take n
       let rest := s.drop n
       match act with
-      | .escOct => lexString fuel { f with str := f.str ++ [parseEscNum (txt.drop 1) 8] } rest
-      | .escHex => lexString fuel { f with str := f.str ++ [parseEscNum (txt.drop 2) 16] } rest
+      | .escOct =>
+        if f.raw then lexString fuel { f with str := f.str ++ txt } rest
+        else lexString fuel { f with str := f.str ++ [parseEscNum (txt.drop 1) 8] } rest
+      | .escHex =>
+        if f.raw then lexString fuel { f with str := f.str ++ txt } rest
+        else lexString fuel { f with str := f.str ++ [parseEscNum (txt.drop 2) 16] } rest
       | .esc =>
         let c := txt.getD 1 0
         if f.raw then lexString fuel { f with str := f.str ++ txt } rest
